@@ -367,6 +367,87 @@ class AtProxy:
         self.idx = idx
 
 
+class BlockView:
+    """x[block] where block slices symbolic (spectrum) axes as [:a] / [-b:]: the set of wavenumbers
+    it denotes per axis, together with the array it was taken from"""
+
+    def __init__(self, t, sets):
+        self.t = t
+        self.sets = sets  # per axis: None (whole axis) | ('low', a) | ('high', b)
+
+
+def _block_sets(t, idx):
+    """per-axis wavenumber-set descriptors if idx is a block index on symbolic axes, else None"""
+    idxn = T.normalize_index(idx, t.ndim)
+    if any(it is None for it in idxn):
+        return None
+    sets = []
+    found = False
+    for ax, it in enumerate(idxn):
+        if not isinstance(it, slice):
+            return None
+        if it == slice(None):
+            sets.append(None)
+            continue
+        if not is_sym(t.shape[ax]) or it.step is not None:
+            return None
+        if it.start is None and it.stop is not None:
+            sets.append(("low", num_to_poly(it.stop)))
+            found = True
+        elif it.stop is None and it.start is not None:
+            sets.append(("high", -num_to_poly(it.start)))
+            found = True
+        else:
+            return None
+    return sets if found else None
+
+
+def _axis_capacity(interp, n, half, side):
+    """number of stored non-negative ('low') / negative ('high') wavenumbers on an axis of length n"""
+    n = as_poly(n)
+    if half:
+        return n if side == "low" else Poly()
+    par = parity_of(interp, n)
+    if par is None:
+        raise Unsupported(f"parity of axis length {n} unknown")
+    return (n + par) / 2 if side == "low" else (n - par) / 2
+
+
+def decide_nonneg(interp, d):
+    """d >= 0 ?  using ctx.facts of the form (Nbig - Nsmall, '>0') between integer sizes of known parity"""
+    d = as_poly(d)
+    nval = d.as_number()
+    if nval is not None:
+        return nval >= 0
+    for p, rel in interp.ctx.facts:
+        if rel != ">0":
+            continue
+        atoms = sorted(p.atoms(), key=alg.atom_sortkey)
+        if len(atoms) != 2:
+            continue
+        # p = big - small
+        big = [a for a in atoms if p.t.get(((a, 1),)) == alg.ONE]
+        small = [a for a in atoms if p.t.get(((a, 1),)) == -alg.ONE]
+        if len(big) != 1 or len(small) != 1:
+            continue
+        cb = d.t.get(((big[0], 1),), alg.ZERO)
+        if cb.im != 0:
+            continue
+        alpha = cb.re
+        rest = d - p.scale(alpha)
+        beta = rest.as_number()
+        if beta is None:
+            continue
+        pb, ps = interp.ctx.parity.get(big[0]), interp.ctx.parity.get(small[0])
+        if pb is None or ps is None:
+            continue
+        pmin = 1 if pb != ps else 2
+        if alpha >= 0:
+            return alpha * pmin + beta >= 0
+        return None
+    return None
+
+
 def sym_index(entry, picks, all_indexed):
     """value of a representative entry at integer positions of symbolic axes.
     picks: list of (axis_from_right, i, length)"""
@@ -420,6 +501,9 @@ def getitem(interp, o, i, node):
         idx = i if isinstance(i, tuple) else (i,)
         if any(isinstance(x, (Tens, list)) for x in idx):
             raise Unsupported("advanced (array) indexing")
+        sets = _block_sets(o, idx)
+        if sets is not None:
+            return BlockView(o, sets)
 
         def handler(e, picks, all_indexed):
             return sym_index(e, picks, all_indexed)
@@ -544,6 +628,8 @@ def at_update(interp, proxy, kind, args, kwargs, node):
     if idx is None:
         raise Unsupported(".at without index")
     idx_t = idx if isinstance(idx, tuple) else (idx,)
+    if isinstance(v, BlockView):
+        return _block_copy(interp, t, idx_t, v, kind, node)
     if "flat_of" in t.meta:
         # flatten().at[0]  ==  the DC entry of the original array
         if idx_t != (0,):
@@ -602,6 +688,54 @@ def at_update(interp, proxy, kind, args, kwargs, node):
         else:
             out[k] = old * val if sel is None else (1 - sel) * old + sel * old * val
     return Tens(t.shape, out, t.meta)
+
+
+def _block_copy(interp, t, idx, view, kind, node):
+    """target.at[block].set(source[block]) on spectra of (possibly) different resolutions: entries are
+    copied *by wavenumber*, which is what the slices mean when they fit into the non-negative /
+    negative halves of both arrays; every fit obligation is recorded as an event"""
+    if kind != "set":
+        raise Unsupported(f".at[block].{kind}(block)")
+    tsets = _block_sets(t, idx)
+    if tsets is None:
+        raise Unsupported("block assignment with a non-block target index")
+    src = view.t
+    if src.ndim != t.ndim:
+        raise ShapeError("block copy between arrays of different rank")
+    same = all((a is None and b is None) or (a is not None and b is not None and a[0] == b[0] and a[1] == b[1]) for a, b in zip(tsets, view.sets))
+    if not same:
+        interp.event("block-misfit", node, f"target block {tsets} and source block {view.sets} are different slices")
+    nd = t.ndim
+    sym_axes = [ax for ax in range(nd) if is_sym(t.shape[ax])]
+    D = len(sym_axes)
+    chi = Poly.const(1)
+    for ax in range(nd):
+        st = tsets[ax]
+        if st is None:
+            if is_sym(t.shape[ax]) and t.shape[ax] != src.shape[ax]:
+                interp.event("block-misfit", node, f"axis {ax} copied whole between different lengths {src.shape[ax]} -> {t.shape[ax]}")
+            continue
+        j = sym_axes.index(ax)
+        half = ax == nd - 1
+        katom = Poly.atom(("k", j, D, "half" if half else "full"))
+        side, bound = st
+        for arr, who in ((t, "target"), (src, "source")):
+            cap = _axis_capacity(interp, arr.shape[ax], half, side)
+            ok = decide_nonneg(interp, cap - bound)
+            interp.event("block-fit" if ok else "block-misfit", node, f"{who} axis {ax}: {side} block of {bound} modes, capacity {cap} -> {ok}")
+        if side == "low":
+            c = alg.ind("lt", katom, bound)
+            if not half:
+                c = c * alg.ind("le", 0, katom)
+        else:
+            c = alg.ind("le", -bound, katom) * alg.ind("lt", katom, 0)
+        chi = chi * c
+    if t.cshape_tuple() != src.cshape_tuple() if hasattr(t, "cshape_tuple") else T.cshape(t.shape) != T.cshape(src.shape):
+        raise ShapeError("block copy between arrays with different concrete axes")
+    data = [(1 - chi) * old + chi * new for old, new in zip(t.data, src.data)]
+    meta = dict(t.meta)
+    meta.update(src.meta)
+    return Tens(t.shape, data, meta)
 
 
 # ----------------------------------------------------------------------------- array functions
